@@ -45,8 +45,10 @@ def make_int(ty, bits=None, lo=None, hi=None, aff=None, deps=frozenset(), term=N
     w, signed = INT_TYPES[ty]
     tlo, thi = ty_range(ty)
     if aff is not None:
-        alo, ahi = aff.range(lambda a: (0, 1) if a[0] == "b" else (a[2], a[3]))
-        if alo < tlo or ahi > thi:
+        alo, ahi = aff.range(lambda a: (0, 1) if a[0] in ("b", "x") else (a[2], a[3]))
+        # the affine form is exact as long as the value itself is known to be representable
+        # (either by the form's own range or by the interval established by refinement)
+        if (alo < tlo and (lo is None or lo < tlo)) or (ahi > thi and (hi is None or hi > thi)):
             aff = None
     if bits is None and aff is not None:
         bits = aff_to_bits(aff, w)
@@ -100,8 +102,8 @@ def int_binop(op, a, b, ty):
             definitely = hi < tlo or lo > thi
             ovf = BoolV(True if definitely else None, deps=deps)
             if checked:
-                # value after a passed overflow check: the in-range part
-                res = make_int(ty, None, max(lo, tlo), min(hi, thi), aff, deps)
+                # value after a passed overflow check: the in-range part (the affine form is exact there)
+                res = IntV(ty, None, max(lo, tlo), min(hi, thi), aff, deps)
             else:
                 res = IntV(ty, None, tlo, thi, None, deps)  # wraps
         return (res, ovf) if checked else res
@@ -199,7 +201,16 @@ def compare(op, a, b):
         val = True if a.lo > b.hi else (False if a.hi <= b.lo else None)
     elif op == "Ge":
         val = True if a.lo >= b.hi else (False if a.hi < b.lo else None)
-    return BoolV(val, ("cmp", op, a, b), deps)
+    bit = None
+    if val is None and op in ("Eq", "Ne") and a.bits is not None and b.is_const():
+        nz = [x for x in a.bits if x != 0]
+        if len(nz) == 1 and not bit_is_const(nz[0]) and nz[0] != TBIT:
+            i = a.bits.index(nz[0])
+            if b.lo == 0:
+                bit = nz[0] if op == "Ne" else bit_xor(nz[0], 1)
+            elif b.lo == (1 << i):
+                bit = nz[0] if op == "Eq" else bit_xor(nz[0], 1)
+    return BoolV(val, ("cmp", op, a, b), deps, None, bit)
 
 
 def _bits_differ(a, b):
@@ -226,7 +237,8 @@ def int_unop(op, a, ty):
 
 
 def bool_not(a):
-    return BoolV(None if a.val is None else (not a.val), ("not", a), a.deps, a.term)
+    return BoolV(None if a.val is None else (not a.val), ("not", a), a.deps, a.term,
+                 bit_xor(a.bit, 1) if a.bit is not None and a.val is None else None)
 
 
 def cast_int(a, to):
@@ -313,9 +325,10 @@ def _iterm(a):
     if a.term is not None:
         return a.term
     aff = a.affine()
+    fd = tuple(sorted(d for d in a.deps if isinstance(d, int)))
     if aff is not None:
-        return ("aff", aff.show())
-    return ("int?", tuple(sorted(a.deps, key=str)))
+        return ("aff", aff.show(), fd)
+    return ("int?", tuple(sorted(a.deps, key=str)), fd)
 
 
 def float_to_int(a, to):
